@@ -2,7 +2,7 @@
    This file contains only the property statements; every proof is `exact <lemma>`. *)
 From Sakura.Model Require Import Base Cursor Length.
 From Sakura.Spec Require Import LenSpec.
-From Sakura.Proofs Require Import LengthP.
+From Sakura.Proofs Require Import LengthP LayoutP LenBoundaryP.
 
 (* For every well-formed expression of the grammar  [%]?[-]?digits? dots? ((^|+) part)*,
    every time base and every default length, the reader returns the documented tick count. *)
@@ -31,6 +31,65 @@ Definition ex_e : expr :=
 Example C04_example : expr_wf ex_e = true /\ calc_length (print ex_e) 96 96 = 10 + 144 + 84.
 Proof. split; vm_compute; reflexivity. Qed.
 
+(* ---- where a length ends (source_cursor.rs get_note_length) ----
+   `len_boundary r` (LenBoundaryP.v, = LayoutP.len_stop r 0): r is empty, or its first character is none of
+   0-9 . ^ % - +  (the length alphabet) and none of  space | TAB CR  (dropped inside a length), and if it is a line
+   break, the first character after the following blanks, line breaks and comments is not '^'. *)
+
+(* A printed length expression followed by a boundary is read back exactly, the cursor stays at the boundary and the
+   line counter is unchanged: a length never swallows the beginning of the next command and never stops early. *)
+Theorem C04_token_boundary : forall (e : expr) (r : list Z) (ln : Z),
+  expr_wf e = true -> len_boundary r = true ->
+  get_note_length (print e ++ r) ln = (print e, r, ln).
+Proof. exact len_token_boundary. Qed.
+
+(* Blanks, bars, TABs and CRs anywhere inside or after the length are dropped (they cannot begin a command): for any
+   text u over the length alphabet and those blanks, the length text is the length characters of u, in order. *)
+Theorem C04_token_blanks : forall (u r : list Z) (ln : Z),
+  forallb is_len_or_blank u = true -> len_boundary r = true ->
+  get_note_length (u ++ r) ln = (filter is_len_char u, r, ln).
+Proof. exact len_token_mixed. Qed.
+
+(* A '^' part may be written on a following line: line break, then blanks / TABs / CRs / further line breaks, then
+   '^'; the line counter advances by the line breaks taken. *)
+Theorem C04_token_line_break : forall (h : atom) (ps1 : list (bool * atom)) (a : atom) (ps2 : list (bool * atom))
+    (w r : list Z) (ln : Z),
+  expr_wf (h, ps1 ++ (true, a) :: ps2) = true -> forallb is_ws w = true -> len_boundary r = true ->
+  get_note_length (print (h, ps1) ++ 10 :: w ++ flat_map print_part ((true, a) :: ps2) ++ r) ln
+  = (print (h, ps1 ++ (true, a) :: ps2), r, ln + 1 + count_nl w).
+Proof. exact len_token_line_break. Qed.
+
+(* Safety, for ANY input text and line: the text returned consists of length characters only, they are taken in order
+   (`subseq`) from the consumed part u of the input, the cursor is the rest of the input, the line counter does not go
+   back, and the reader stopped at a boundary (it never stops while the length could go on).
+   The returned text is a PREFIX of the input only when no blank, bar or line break is consumed ("4 ^2" reads as "4^2"):
+   C04_token_prefix. *)
+Theorem C04_token_safe : forall (s : list Z) (ln : Z),
+  let '(t, r, ln') := get_note_length s ln in
+  forallb is_len_char t = true /\ (exists u, s = u ++ r /\ subseq t u) /\ ln <= ln' /\ len_boundary r = true.
+Proof. exact get_note_length_safe. Qed.
+
+Theorem C04_token_prefix : forall (s : list Z) (ln : Z),
+  forallb (fun c => negb (is_len_blank c) && negb (c =? 10)) s = true ->
+  s = fst (fst (get_note_length s ln)) ++ snd (fst (get_note_length s ln)).
+Proof. exact get_note_length_prefix. Qed.
+
+(* non-vacuity: "%10^4.+8.." before "c", before "\n+8" (a line break not followed by '^'), with inner blanks, and
+   continued on the next line *)
+Example C04_token_boundary_example :
+  len_boundary [99] = true /\ len_boundary [10; 43; 56] = true /\ len_boundary [10; 32; 94] = false
+  /\ get_note_length (print ex_e ++ [99]) 7 = (print ex_e, [99], 7)
+  /\ get_note_length ([52; 32; 94; 124; 50; 46] ++ [99]) 0 = ([52; 94; 50; 46], [99], 0)
+  /\ get_note_length (print (fst ex_e, [(true, mkAtom false false [4] 1)]) ++ 10 :: [13; 10; 32]
+                       ++ flat_map print_part [(true, mkAtom false false [8] 2)] ++ [99]) 0
+     = (print (fst ex_e, [(true, mkAtom false false [4] 1); (true, mkAtom false false [8] 2)]), [99], 2).
+Proof. repeat split; vm_compute; reflexivity. Qed.
+
 Print Assumptions C04_denotes.
 Print Assumptions C04_additive.
 Print Assumptions C04_literals.
+Print Assumptions C04_token_boundary.
+Print Assumptions C04_token_blanks.
+Print Assumptions C04_token_line_break.
+Print Assumptions C04_token_safe.
+Print Assumptions C04_token_prefix.
